@@ -3,7 +3,7 @@ CONSTANTS
  DescPlatStrict = FALSE
  PlatLookupStrict = FALSE
  ReadFaults = FALSE
- EqualAnnStrict = FALSE
+ EqualAnnStrict = TRUE
  PutFirst = FALSE
  DedupByDigest = FALSE
  DeleteKeepsOne = FALSE
